@@ -977,6 +977,136 @@ theorem nested_centre_is_midpoint (chain : List Loc) (c b t : List Rat)
             simp only [List.dropLast_cons_cons, List.mem_cons]; right; exact hm)) hc' hb' ht'
           rw [h1, h2, vadd_avg]
 
+/-! ### reduce after in-place mutation -/
+
+/-- a mutation is admissible on a grid with bounds `bd`: a new offset has three entries; the pitch of a
+lattice is changed only on pure-step (hex / Cartesian) grids -/
+def Mut.ok (bd : List (Option (List Rat))) : Mut → Prop
+  | .setOffset o => o.length = 3
+  | .hexPitch _ _ => bd = [none, none, none]
+  | .cartPitch _ _ => bd = [none, none, none]
+  | .backUp => True
+  | .restore => True
+
+/-- well-formed live grid together with its chain of backups, all over the same bounds -/
+def WFS (bd : List (Option (List Rat))) (gs : GS) : Prop :=
+  (WF gs.g ∧ gs.g.bounds = bd) ∧
+  ∀ b ∈ gs.backups, WF { gs.g with steps := b.1, bounds := b.2.1, offset := b.2.2 } ∧ b.2.1 = bd
+
+theorem mut_preserves_WFS (bd) (gs gs' : GS) (m : Mut) (h : WFS bd gs) (hm : m.ok bd)
+    (hstep : applyMut gs m = some gs') : WFS bd gs' := by
+  obtain ⟨⟨hwf, hbd⟩, hbk⟩ := h
+  cases m with
+  | setOffset o =>
+    simp only [applyMut, Option.some.injEq] at hstep; subst hstep
+    refine ⟨⟨?_, hbd⟩, ?_⟩
+    · obtain ⟨h1, _, h3⟩ := hwf
+      exact ⟨h1, hm, h3⟩
+    · intro b hb; exact hbk b hb
+  | backUp =>
+    simp only [applyMut, Option.some.injEq] at hstep; subst hstep
+    refine ⟨⟨hwf, hbd⟩, ?_⟩
+    intro b hb
+    simp only [List.mem_cons] at hb
+    rcases hb with rfl | hb
+    · exact ⟨hwf, hbd⟩
+    · exact hbk b hb
+  | restore =>
+    simp only [applyMut] at hstep
+    cases hb : gs.backups with
+    | nil => simp [hb] at hstep
+    | cons b rest =>
+      obtain ⟨st, bd', off⟩ := b
+      simp only [hb, Option.some.injEq] at hstep; subst hstep
+      have hmem := hbk (st, bd', off) (by simp [hb])
+      refine ⟨⟨hmem.1, hmem.2⟩, ?_⟩
+      intro b' hb'
+      have := hbk b' (by simp [hb, hb'])
+      exact ⟨this.1, this.2⟩
+  | hexPitch s3 p =>
+    simp only [Mut.ok] at hm
+    simp only [applyMut, Option.map_eq_some_iff] at hstep
+    obtain ⟨g', hg', rfl⟩ := hstep
+    have hb3 : gs.g.bounds = [none, none, none] := by rw [hbd, hm]
+    simp only [hexChangePitch, Option.bind_eq_bind, Option.bind_eq_some_iff, Option.some.injEq] at hg'
+    obtain ⟨cu, _, rows, hrows, rfl⟩ := hg'
+    refine ⟨⟨?_, hbd⟩, ?_⟩
+    · obtain ⟨h1, h2, _⟩ := hwf
+      refine ⟨h1, h2, ?_⟩
+      simp only [hb3] at hrows ⊢
+      cases cu <;>
+        simp [hexRawUnitSteps, selectAt, stepDims, List.range, List.range.loop] at hrows <;>
+        subst hrows <;> simp [stepDims, List.range, List.range.loop]
+    · intro b hb; exact hbk b hb
+  | cartPitch xw yw =>
+    simp only [Mut.ok] at hm
+    simp only [applyMut, Option.map_eq_some_iff] at hstep
+    obtain ⟨g', hg', rfl⟩ := hstep
+    have hb3 : gs.g.bounds = [none, none, none] := by rw [hbd, hm]
+    have hg := hg'
+    simp only [cartChangePitch] at hg
+    split at hg
+    · rename_i r0 r1 rest hst
+      simp only [Option.bind_eq_bind, Option.bind_eq_some_iff] at hg
+      obtain ⟨xo, _, yo, _, rows, hrows, ox, _, oy, _, hg⟩ := hg
+      split at hg
+      · simp at hg
+      · simp only [Option.some.injEq] at hg; subst hg
+        refine ⟨⟨?_, hbd⟩, ?_⟩
+        · obtain ⟨h1, _, _⟩ := hwf
+          refine ⟨h1, rfl, ?_⟩
+          simp only [hb3] at hrows ⊢
+          simp [selectAt, stepDims, List.range, List.range.loop] at hrows
+          subst hrows; simp [stepDims, List.range, List.range.loop]
+        · intro b hb; exact hbk b hb
+    · simp at hg
+
+/-- **`reduce()` is a function of the CURRENT state and round-trips after any admissible sequence of in-place
+mutations** (changePitch of a lattice, offset setter, backUp / restoreBackup in any order): the grid
+rebuilt from the arguments reduced after the sequence equals the grid as it is then. -/
+theorem reduce_roundtrip_after_mutations (bd) (gs gs' : GS) (ms : List Mut) (h : WFS bd gs)
+    (hok : ∀ m ∈ ms, m.ok bd) (hrun : applyMuts gs ms = some gs') :
+    ∃ a, reduce gs'.g = some a ∧ build a = some gs'.g := by
+  induction ms generalizing gs with
+  | nil =>
+    simp only [applyMuts, Option.some.injEq] at hrun; subst hrun
+    exact reduce_roundtrip gs.g h.1.1
+  | cons m ms ih =>
+    simp only [applyMuts, Option.bind_eq_bind, Option.bind_eq_some_iff] at hrun
+    obtain ⟨g1, h1, h2⟩ := hrun
+    exact ih g1 (mut_preserves_WFS bd gs g1 m h (hok m (by simp)) h1) (fun m' hm' => hok m' (by simp [hm'])) h2
+
+example : WFS [none, none, none] { g := cartGrid 2 3 [1, 3/2, 0] [(-2, 2), (-2, 2), (0, 1)] "" "", backups := [] } := by
+  refine ⟨⟨⟨rfl, rfl, ?_⟩, rfl⟩, by simp⟩
+  simp [cartGrid, stepDims, List.range, List.range.loop]
+example : (Mut.cartPitch 3 4).ok [none, none, none] ∧ (Mut.setOffset [1, 1, 0]).ok [none, none, none] := ⟨rfl, rfl⟩
+
+/-- a pure-step radial lattice (hex or Cartesian) spanning rings −n … n -/
+def latticeGrid (steps : Steps) (off : List Rat) (geom sym : String) (n : Int) : G :=
+  { steps := steps, bounds := [none, none, none], limits := [(-n, n), (-n, n), (0, 1)],
+    offset := off, geom := geom, sym := sym }
+
+/-- **an axial grid nested in a radial lattice may add indices, whatever its number of cells ≥ 1**
+(one-block assemblies included): `addingIsValid(axial, lattice)` holds, so the complete indices of a block
+are (i, j) of the assembly's cell and its own k. -/
+theorem axial_in_lattice_adds (bz : List Rat) (off) (h : 2 ≤ bz.length) (steps off' geom sym) (n : Int)
+    (i j k pi pj pk : Int) :
+    addingIsValid (axialGrid bz off [(0, 1), (0, 1), (0, 1)]) (latticeGrid steps off' geom sym n) = true ∧
+    completeIndices (.index (some (axialGrid bz off [(0, 1), (0, 1), (0, 1)])) i j k)
+      (some (.index (some (latticeGrid steps off' geom sym n)) pi pj pk)) =
+      [((i + pi : Int) : Rat), ((j + pj : Int) : Rat), ((k + pk : Int) : Rat)] := by
+  have h1 := axial_isAxialOnly bz off h
+  have h2 : isAxialOnly (latticeGrid steps off' geom sym n) = false := lattice_not_axialOnly steps off' geom sym n
+  refine ⟨by simp [addingIsValid, h1, h2], ?_⟩
+  rw [complete_indices_axial_only]; simp [h1, h2]
+
+example : isAxialOnly (axialGrid [0, 175] [0, 0, 0] [(0, 1), (0, 1), (0, 1)]) = true :=
+  axial_isAxialOnly _ _ (by decide)                                  -- ONE cell (fromNCells(1) has bounds [0, 1])
+example : isAxialOnly (axialGrid [0, 1] [0, 0, 0] [(0, 1), (0, 1), (0, 1)]) = true := axial_isAxialOnly _ _ (by decide)
+example : isAxialOnly (axialGrid [0, 1, 2] [0, 0, 0] [(0, 1), (0, 1), (0, 1)]) = true := axial_isAxialOnly _ _ (by decide)
+example : isAxialOnly (axialGrid [0, 1, 2, 3] [0, 0, 0] [(0, 1), (0, 1), (0, 1)]) = true := axial_isAxialOnly _ _ (by decide)
+example : isAxialOnly (axialGrid [0] [0, 0, 0] [(0, 1), (0, 1), (0, 1)]) = false := by decide  -- no cell at all
+
 /-! ### non-vacuity -/
 example : cartRingPos true 2 (-1) = (3, 14) ∧ cartFromRingPos true 3 14 = (2, -1) := by decide
 example : cartRingPos false (-1) 0 = (1, 2) ∧ cartPositionsInRing false 1 = 4 := by decide
